@@ -43,7 +43,7 @@ pub fn run_line(line: &str) -> Vec<String> {
     }
     let args = &f[1..];
     match f[0] {
-        "hash" | "b2b" | "b2s" | "b2bt" | "b2st" | "b2blegacy" | "b2slegacy" | "hashoff" | "hh" | "b2ctr" | "b2embed" => {
+        "hash" | "b2b" | "b2s" | "b2b_at" | "b2s_at" | "b2bt" | "b2st" | "b2blegacy" | "b2slegacy" | "hashoff" | "hh" | "b2ctr" | "b2embed" => {
             hashes::run(f[0], args)
         }
         "sc" | "pe" | "peh" | "drg" => streams::run(f[0], args),
